@@ -8,27 +8,48 @@ from .symex import Val, OutOfSubset, Outcome, State, fresh_v, fresh_name
 from . import calls
 
 
+SPEC_PURE = set()
+
+
 class Runner:
     def __init__(self, ex):
         self.ex = ex
 
     # ------------------------------------------------------------------ blocks
+    MAX_PATHS = 24
+
     def block(self, stmts, st):
-        """returns a list of Outcomes; at most one of kind 'next'"""
+        """returns a list of Outcomes; several may be of kind 'next' (paths are split at `if`, joined before loops
+        and when more than MAX_PATHS are alive)"""
         outs = []
-        cur = st
+        curs = [st]
         for s in stmts:
-            if cur is None:
+            if not curs:
                 break
-            res = self.stmt(s, cur)
-            nxt = [o for o in res if o.kind == 'next']
-            outs.extend(o for o in res if o.kind != 'next')
-            if len(nxt) > 1:
-                raise OutOfSubset('internal: unmerged paths')
-            cur = nxt[0].st if nxt else None
-        if cur is not None:
+            if len(curs) > 1 and (isinstance(s, (ast.While, ast.For, ast.Try)) or len(curs) > self.MAX_PATHS or self.has_comprehension(s)):
+                curs = [self.join_states(None, curs)]
+            nxt = []
+            for cur in curs:
+                res = self.stmt(s, cur)
+                nxt.extend(o.st for o in res if o.kind == 'next')
+                outs.extend(o for o in res if o.kind != 'next')
+            curs = nxt
+        for cur in curs:
             outs.append(Outcome('next', cur))
         return outs
+
+    def has_comprehension(self, s):
+        return any(isinstance(n, (ast.ListComp, ast.For, ast.While)) for n in ast.walk(s))
+
+    def one_next(self, outs):
+        """join the 'next' outcomes of a block into at most one"""
+        nxt = [o for o in outs if o.kind == 'next']
+        rest = [o for o in outs if o.kind != 'next']
+        if len(nxt) > 1:
+            rest.append(Outcome('next', self.join_states(None, [o.st for o in nxt])))
+        else:
+            rest.extend(nxt)
+        return rest
 
     def drain(self, st=None):
         """exceptional forks produced while evaluating expressions of the current statement"""
@@ -101,6 +122,7 @@ class Runner:
         ex = self.ex
         if base.ty == 'dict':
             calls.used('dict.__setitem__')
+            ex.raise_if(st, z3.Not(calls.hash_ok(idx.t)), 'TypeError', 'safe/hashable-key', node)
             ex.dict_set(st, base, idx, v)
             return
         if base.ty == 'list':
@@ -218,17 +240,7 @@ class Runner:
         b = st.fork(); b.assume(z3.Not(c))
         oa = self.block(s.body, a)
         ob = self.block(s.orelse, b)
-        na = [o for o in oa if o.kind == 'next']
-        nb = [o for o in ob if o.kind == 'next']
-        outs = pend + [o for o in oa + ob if o.kind != 'next']
-        if na and nb:
-            ex.merge_into(st, c, na[0].st, nb[0].st)
-            outs.append(Outcome('next', st))
-        elif na:
-            outs.append(na[0])
-        elif nb:
-            outs.append(nb[0])
-        return outs
+        return pend + oa + ob
 
     def s_Try(self, s, st):
         ex = self.ex
@@ -298,8 +310,13 @@ class Runner:
                 break
         acc = states[-1]
         conds = []
+        defs = []
         for s in states:
-            conds.append(z3.And(*s.pc[base:]) if len(s.pc) > base else z3.BoolVal(True))
+            full = z3.And(*s.pc[base:]) if len(s.pc) > base else z3.BoolVal(True)
+            # name the path condition: the ites of the merged state mention a Boolean constant, not the whole formula
+            j = z3.Bool(fresh_name('path'))
+            defs.append(j == full)
+            conds.append(j)
         for s, c in zip(reversed(states[:-1]), reversed(conds[:-1])):
             m = State()
             m.pc = list(first[:base]); m.env = {}; m.heap = {}; m.alloc = s.alloc
@@ -308,7 +325,7 @@ class Runner:
             m.env = dict(a.env); m.heap = dict(a.heap)
             ex.merge_into(m, c, a, b)
             acc = m
-        acc.pc = list(first[:base]) + [z3.Or(*conds)] + acc.pc[base:]
+        acc.pc = list(first[:base]) + defs + [z3.Or(*conds)] + acc.pc[base:]
         return acc
 
     def handler_names(self, h):
@@ -350,6 +367,8 @@ class Runner:
                 flds.add((n.attr, ast.unparse(n.value)))
             elif isinstance(n, ast.Subscript) and isinstance(n.ctx, (ast.Store, ast.Del)):
                 conts.add(ast.unparse(n.value))
+            elif isinstance(n, ast.For) and len(n.body) == 1 and isinstance(n.body[0], ast.Pass) and ('exhaust', self.ex.f.qual) in REG.externs:
+                callees.append(n)
             elif isinstance(n, ast.Call):
                 callees.append(n)
                 f = n.func
@@ -408,7 +427,7 @@ class Runner:
         # callee frames
         extra = ex.c.loop_frames.get(ordinal)
         for cn in callees:
-            for key, ref in self._callee_frame(cn, st, locs):
+            for key, ref in self._callee_frame(cn, st, locs, stable):
                 writes.append((key, ref))
         if extra:
             view = State(); view.env = st.env; view.heap, view.pc, view.alloc = st.heap, st.pc, st.alloc
@@ -417,9 +436,32 @@ class Runner:
         for key, ref in writes:
             if ref is None:
                 done_whole.add(key)
-        for key in done_whole:
+        self.loop_frames = getattr(self, 'loop_frames', {})
+        checks = []
+        if done_whole and ex.entry is not None and not ex.spec_mode:
+            entry = ex.entry
+            eview = State(); eview.env = entry.env; eview.heap = dict(entry.heap); eview.pc = list(entry.pc); eview.alloc = entry.alloc
+            fpts = calls.modifies_points(ex, ex.c.modifies, eview, entry)
+        for key in sorted(done_whole):
             arr = ex.harr(st, key)
-            st.heap[key] = z3.Const(fresh_name('L_' + key.replace('$', 'S_').replace(':', '_')), arr.sort())
+            L = z3.Const(fresh_name('L_' + key.replace('$', 'S_').replace(':', '_')), arr.sort())
+            if ex.entry is not None and not any(k == key and r is None for k, r in fpts):
+                # objects that existed when the function was entered and that the function may not modify keep their contents:
+                # assumed for the arbitrary iteration, proved at loop entry and at the end of every iteration
+                a0 = ex.entry.heap.get(key)
+                if a0 is None:
+                    a0 = ex.harr(ex.entry, key)
+                allowed = [r for k, r in fpts if k == key]
+                o = z3.Int(fresh_name('fo'))
+                hyp = z3.And(o < ex.entry.alloc, *[o != r for r in allowed])
+                name, _ = ex.site('loop-frame/%d/%s' % (ordinal, key.replace('f:', '')))
+                osk = z3.Int(fresh_name('o'))
+                ex.prove(name + '/init', list(st.pc) + [osk < ex.entry.alloc] + [osk != r for r in allowed], z3.Select(arr, osk) == z3.Select(a0, osk),
+                         detail='loop %d: objects outside the function frame are unchanged at loop entry' % ordinal)
+                st.assume(z3.ForAll([o], z3.Implies(hyp, z3.Select(L, o) == z3.Select(a0, o)), patterns=[z3.Select(L, o)]))
+                checks.append((key, a0, allowed, name))
+            st.heap[key] = L
+        self.loop_frames[ordinal] = checks
         for key, ref in writes:
             if ref is not None and key not in done_whole:
                 arr = ex.harr(st, key)
@@ -434,6 +476,16 @@ class Runner:
             st.alloc = na
         return auto
 
+    def check_loop_frame(self, ordinal, st):
+        ex = self.ex
+        for key, a0, allowed, name in getattr(self, 'loop_frames', {}).get(ordinal, []):
+            arr = st.heap.get(key)
+            if arr is None:
+                continue
+            osk = z3.Int(fresh_name('o'))
+            ex.prove(name + '/preserved', list(st.pc) + [osk < ex.entry.alloc] + [osk != r for r in allowed], z3.Select(arr, osk) == z3.Select(a0, osk),
+                     detail='loop %d: an iteration writes only what the function may modify or what it allocated itself' % ordinal)
+
     def _callee_may_write(self, callees, field):
         for cn in callees:
             c = self._callee_contract(cn)
@@ -444,18 +496,65 @@ class Runner:
                     return True
         return False
 
+    PURE_NAMES = {'len', 'isinstance', 'int', 'str', 'ord', 'chr', 'bool', 'hasattr', 'getattr', 'max', 'min', 'list', 'tuple', 'dict',
+                  'repr', 'id', 'type', 'range', 'sorted', 'bytes', 'float', 'set', 'abs', 'hash', 'callable', 'issubclass'}
+    PURE_METHODS = {'append', 'extend', 'pop', 'insert', 'reverse', 'sort', 'clear', 'update', 'setdefault', 'add', 'remove', 'discard',
+                    'get', 'copy', 'keys', 'values', 'items', 'index', 'count', 'startswith', 'endswith', 'lower', 'upper', 'strip', 'lstrip',
+                    'rstrip', 'replace', 'join', 'encode', 'decode', 'split', 'isdigit', 'isalpha', 'isalnum', 'isspace', 'find', 'rsplit',
+                    'ljust', 'format', 'title', 'capitalize'}
+
     def _callee_contract(self, cn):
+        """the contract that accounts for the effects of call node `cn` inside a loop; None = no heap effect beyond the
+        container mutations loop_writes already sees; raises OutOfSubset when the callee is unknown"""
         ex = self.ex
+        if isinstance(cn, ast.For):
+            return REG.externs[('exhaust', ex.f.qual)]
         f = cn.func
         if isinstance(f, ast.Attribute) and isinstance(f.value, ast.Name) and f.value.id == 'self' and ex.ctx is not None:
             m = ex.repo.find_method(ex.ctx, f.attr)
             if m is not None:
                 return REG.contracts.get(m.qual)
-        return None
+            if ('value-call', ex.f.qual) in REG.externs:
+                return REG.externs[('value-call', ex.f.qual)]
+            raise OutOfSubset('loop calls self.%s (a field holding a callable) without an assumed contract' % f.attr)
+        if isinstance(f, ast.Name):
+            n = f.id
+            if n == 'next' and ('next', ex.f.qual) in REG.externs:
+                return REG.externs[('next', ex.f.qual)]
+            if n in SPEC_PURE or n in self.PURE_NAMES:
+                return None
+            g = ex.repo.lookup(ex.f.module.name, n)
+            if isinstance(g, FuncInfo):
+                c = REG.contracts.get(g.qual)
+                if c is None and not calls.auto_inline_ok(g):
+                    raise OutOfSubset('loop calls %s which has no contract' % g.qual)
+                return c
+            if isinstance(g, ClassInfo):
+                init = ex.repo.find_method(g, '__init__')
+                return REG.contracts.get(init.qual) if init is not None else None
+            if ('value-call', ex.f.qual) in REG.externs:
+                return REG.externs[('value-call', ex.f.qual)]
+            raise OutOfSubset('loop calls the computed callable %s without an assumed contract' % n)
+        if isinstance(f, ast.Attribute):
+            if isinstance(f.value, ast.Name):
+                g = ex.repo.lookup(ex.f.module.name, f.value.id) if f.value.id not in ('self',) else None
+                if isinstance(g, tuple) and g[0] == 'module':
+                    return REG.externs.get(('extern', '%s.%s' % (g[1], f.attr)))
+                if isinstance(g, ClassInfo):
+                    m = ex.repo.find_method(g, f.attr)
+                    if m is not None:
+                        return REG.contracts.get(m.qual)
+            for (ty, name), c in REG.externs.items():
+                if name == f.attr and ty not in ('extern', 'value-call', 'next', 'exhaust', 'value'):
+                    return c
+            if f.attr in self.PURE_METHODS:
+                return None
+            raise OutOfSubset('loop calls .%s on a computed receiver without a contract' % f.attr)
+        raise OutOfSubset('loop contains a call of unknown form')
 
-    def _callee_frame(self, cn, st, locs):
+    def _callee_frame(self, cn, st, locs, stable=lambda src: False):
         ex = self.ex
-        f = cn.func
+        f = cn.func if isinstance(cn, ast.Call) else None
         out = []
         c = self._callee_contract(cn)
         if c is None:
@@ -476,8 +575,11 @@ class Runner:
             if m.startswith('self.') and recv_ok and m.count('.') == 1 and not m.endswith('[]'):
                 out.append(('f:' + m[5:], rv(st.env['self'].t)))
             elif m.endswith('[]'):
+                ref = None
+                if recv_ok and stable(m[:-2]):
+                    ref = rv(ex.ev(ast.parse(m[:-2], mode='eval').body, st).t)
                 for key in ('$seq', '$dhas', '$dval', '$dkeys'):
-                    out.append((key, None))
+                    out.append((key, ref))
             elif m.startswith('*.'):
                 out.append(('f:' + m[2:], None))
             elif m.startswith('$'):
@@ -489,8 +591,9 @@ class Runner:
 
     def s_While(self, s, st):
         ex = self.ex
-        k = ex.loop_ordinal
-        ex.loop_ordinal += 1
+        if ex.inline_depth:
+            raise OutOfSubset('loop in an inlined callee')
+        k = ex.loop_ordinal_of(s)
         invs = ex.c.invariants.get(k, []) if ex.inline_depth == 0 else []
         variant = ex.c.variants.get(k) if ex.inline_depth == 0 else None
         if ex.inline_depth:
@@ -519,6 +622,7 @@ class Runner:
                 for n, ty in auto:
                     if n in o.st.env:
                         ex.prove('inv-preserved/%d/type-%s' % (k, n), o.st.pc, ex.type_pred(ty, o.st.env[n].t, o.st), detail='local %s keeps type %s' % (n, ty))
+                self.check_loop_frame(k, o.st)
                 if v0 is not None:
                     v1 = ex.spec_val(variant, o.st, old=ex.entry)
                     ex.prove('variant/%d' % k, o.st.pc, z3.And(iv(v0.t) >= 0, iv(v1.t) < iv(v0.t)), detail='loop %d variant %s' % (k, variant))
@@ -545,10 +649,18 @@ class Runner:
 
     def s_For(self, s, st):
         ex = self.ex
-        k = ex.loop_ordinal
-        ex.loop_ordinal += 1
+        if len(s.body) == 1 and isinstance(s.body[0], ast.Pass) and not s.orelse and ('exhaust', ex.f.qual) in REG.externs:
+            # `for dummy in generator: pass` -- run a generator to exhaustion: its assumed protocol contract applies
+            g = ex.ev(s.iter, st)
+            outs = self.drain()
+            isgen = z3.And(is_r(g.t), typ(rv(g.t)) == ex.w.class_id('types.GeneratorType'))
+            name, line = ex.site('safe/iter-generator', s)
+            ex.raise_if(st, z3.Not(isgen), 'TypeError', 'safe/iter-generator', s)
+            calls.apply_contract(ex, REG.externs[('exhaust', ex.f.qual)], None, st.env.get('self'), [], {}, s, st, pnames=None, extra_env={'callee': g})
+            return outs + self.drain() + [Outcome('next', st)]
         if ex.inline_depth:
             raise OutOfSubset('loop in an inlined callee')
+        k = ex.loop_ordinal_of(s)
         invs = ex.c.invariants.get(k, [])
         it = s.iter
         rng = None
@@ -560,10 +672,12 @@ class Runner:
             elem = lambda i: Val(mk_i(i), 'int')
         else:
             seqv = ex.ev(it, st)
+            dict_ref = None
             if seqv.ty in ('list', 'tuple'):
                 q = ex.seq_of(st, seqv)
             elif seqv.ty in ('dict', 'set'):
                 q = z3.Select(ex.harr(st, '$dkeys'), rv(seqv.t))
+                dict_ref = rv(seqv.t)
             elif seqv.ty == 'str':
                 raise OutOfSubset('for over a string')
             elif seqv.ty is None:
@@ -594,6 +708,9 @@ class Runner:
         exit_st = st.fork(); exit_st.assume(ki == length)
         el = elem(ki)
         ex.assume_allocated(body_st, el.t)
+        if rng is None and dict_ref is not None:
+            # the order sequence of a dict lists exactly its keys (mutating a dict while iterating it is a RuntimeError in CPython)
+            body_st.assume(z3.Select(z3.Select(ex.harr(body_st, '$dhas'), dict_ref), el.t))
         self.assign(s.target, el, body_st)
         outs += self.drain()
         ex.prove('cover/loop-body/%d' % k, body_st.pc, z3.BoolVal(False), kind='cover', detail='loop %d body reachable' % k)
@@ -607,6 +724,7 @@ class Runner:
                 for n, ty in auto:
                     if n in o.st.env:
                         ex.prove('inv-preserved/%d/type-%s' % (k, n), o.st.pc, ex.type_pred(ty, o.st.env[n].t, o.st), detail='local %s keeps type %s' % (n, ty))
+                self.check_loop_frame(k, o.st)
             elif o.kind == 'break':
                 after_break.append(o.st)
             else:
